@@ -1,7 +1,7 @@
 #!/bin/bash
 # usage: tools/try_mutant.sh <patch.diff> <Cxx> [tier]   - run a check against a scratch copy of /repo with the patch applied
 set -u
-diff="$1"; prop="$2"; tier="${3:-quick}"
+diff="$(realpath "$1")"; prop="$2"; tier="${3:-quick}"
 d=$(mktemp -d /tmp/mrepo.XXXXXX)
 cp -r /repo/statemachine "$d/" || exit 3
 (cd "$d" && patch -p1 -s < "$diff") || { echo "patch failed"; rm -rf "$d"; exit 3; }
